@@ -297,7 +297,8 @@ struct Hazards
 Hazards& hazards();
 void probeHazards(Unit* reporter);    // defined in h_cont.cpp
 // runs fn in a forked child; 0 = child returned true, 1 = child returned false, 2 = child crashed, 3 = child hung
-int forkProbe(const std::function<bool()>& fn, int timeoutSec, std::string* errText);
+int forkProbe(const std::function<bool()>& fn, int timeoutSec, std::string* errText, int cpuSec = 0);
+void probeHashRemax(Unit* reporter);   // DataHashTable::reMax() with a growth factor below 1/0.7 (h_cont.cpp)
 
 // factories (one per translation unit)
 Unit* makeSetsUnit(int which);        // cont_sets.cpp   : 0..7
